@@ -36,6 +36,7 @@ func checkCiscoConv(p *Prog, r *Report, prop, flavour string) {
 	ruleMarkDiscipline(p, r, "R-M", prop, "cisco", []string{"cisco.cmd.parsed"}, 13)
 	ruleMarkDiscipline(p, r, "R-M", prop, "cisco", []string{"cisco.State.subCmdOf"}, 5)
 	ruleMustCalls(p, r, "R-PH", prop)
+	ruleExitsAudited(p, r, "R-X", prop, pk, 16)
 	ruleRewriteDiscipline(p, r, "R-FLAG", prop, map[string]bool{"cisco": true}, 20)
 	ruleStickyState(p, r, prop, pk, 9)
 	ruleFreshCounters(p, r, "R08.f", map[string]bool{"cisco": true}, 1)
@@ -107,7 +108,8 @@ func ruleDroppedMoveIdentical(p *Prog, r *Report, rule string) {
 		n++
 		okEq := false
 		for _, g := range guardSet(ret) {
-			if strings.Contains(g, "getPrintableCmd") && strings.Contains(g, "printNetspocCmd") && strings.Contains(g, "==") {
+			// both operands are printed lines (the printer itself or its wrapper for the target side)
+			if strings.Contains(g, " == ") && strings.Count(g, "getPrintableCmd(")+strings.Count(g, "printNetspocCmd(") >= 2 {
 				okEq = true
 			}
 		}
